@@ -41,6 +41,7 @@ class CState:
         self.dropped = False    # model/observation says the manager removed it
         self.sent_frames = 0
         self.consumed = 0
+        self.pre_ctl = 0        # control frames served before the handshake (each answered by an ACK addressed to module 0)
 
 
 def pub_payload(pub_id, size):
@@ -284,6 +285,8 @@ class Scenario:
                 if dec == "either":
                     rec["uncertain"] = True
             return "resolve"
+        if k in ("sub", "resume", "unsub", "pause") and not m.connected:
+            cs.pre_ctl += 1
         if k in ("sub", "resume"):
             self.ctl_log.append((rec["n"], cs.label, k, d["t"]))
             M.subscribe(m, d["t"])
@@ -343,8 +346,20 @@ class Scenario:
                     frames, _ = cs.wc.frames()
                 except W.ParseError:
                     frames = []
-                if frames:
-                    f0 = frames[0]
+                # the answer to the handshake is the first ACKNOWLEDGE that is not one of the answers (addressed to
+                # module 0) to control frames served before it; data delivered to an early subscriber is not looked at
+                skip, f0 = cs.pre_ctl, None
+                for f in frames:
+                    if f.msg_type == W.MT_ACK:
+                        if skip and f.dest_mod == 0:
+                            skip -= 1
+                            continue
+                        f0 = f
+                        break
+                    if not cs.pre_ctl:
+                        f0 = f
+                        break
+                if f0 is not None:
                     outcome = "ack" if f0.msg_type == W.MT_ACK else "other"
                     break
                 if cs.wc.eof:
@@ -359,7 +374,7 @@ class Scenario:
             d["outcome"] = outcome
             m = self.model.get(cs.addr)
             if outcome == "ack":
-                got = frames[0].dest_mod
+                got = f0.dest_mod
                 d["ack_dest_mod"] = got
                 mid = got if d["mod_id"] == 0 else d["mod_id"]
                 cs.mod_id = mid
